@@ -421,6 +421,56 @@ theorem updateAllH_frame (fuel : Nat) (c : Nat) : ∀ (us : List (κ × Nat)) (h
       exact f1.trans (updateAllH_frame fuel c us h1 h' _ B f1.closed hB1 (f1.disjoint hB hd) (.inl hc)
         (fun u h' => hs u (List.mem_cons_of_mem _ h')) he)
 
+/-! ### a freshly loaded document is a closed region of new objects -/
+
+omit [DecidableEq κ] in
+theorem Closed.fresh_append {n : Nat} {h : Heap κ σ} (o : Obj κ σ) (_hn : n ≤ h.length)
+    (hc : Closed h (Fresh n h.length)) (ho : ∀ k b, (k, HV.ref b) ∈ o → Fresh n h.length b) :
+    Closed (h ++ [o]) (Fresh n (h ++ [o]).length) := by
+  intro a ha
+  simp only [List.length_append, List.length_cons, List.length_nil] at ha ⊢
+  by_cases hx : a < h.length
+  · obtain ⟨o1, ho1, hk1⟩ := hc a ⟨ha.1, hx⟩
+    exact ⟨o1, by rw [List.getElem?_append_left hx]; exact ho1, fun k b hb => (hk1 k b hb).mono (by omega)⟩
+  · have : a = h.length := by have := ha.2; omega
+    subst this
+    exact ⟨o, by simp, fun k b hb => (ho k b hb).mono (by omega)⟩
+
+mutual
+theorem allocV_spec : ∀ (v : V κ σ) (n : Nat) (h : Heap κ σ), n ≤ h.length → Closed h (Fresh n h.length) →
+    h.length ≤ (allocV h v).1.length ∧ (∀ a, a < h.length → (allocV h v).1[a]? = h[a]?) ∧
+    Closed (allocV h v).1 (Fresh n (allocV h v).1.length) ∧
+    (∀ b, (allocV h v).2 = .ref b → Fresh n (allocV h v).1.length b)
+  | .scalar x, n, h, _, hc => by simp [allocV, hc]
+  | .dflt x, n, h, _, hc => by simp [allocV, hc]
+  | .list x, n, h, _, hc => by simp [allocV, hc]
+  | .map m, n, h, hn, hc => by
+    obtain ⟨l, sm, cl, rf⟩ := allocM_spec m n h hn hc
+    simp only [allocV]
+    refine ⟨by simp; omega, ?_, Closed.fresh_append _ (Nat.le_trans hn l) cl rf, ?_⟩
+    · intro a ha
+      rw [List.getElem?_append_left (Nat.lt_of_lt_of_le ha l)]; exact sm a ha
+    · intro b hb
+      simp only [HV.ref.injEq] at hb
+      subst hb
+      exact ⟨Nat.le_trans hn l, by simp⟩
+theorem allocM_spec : ∀ (m : M κ σ) (n : Nat) (h : Heap κ σ), n ≤ h.length → Closed h (Fresh n h.length) →
+    h.length ≤ (allocV.allocM h m).1.length ∧ (∀ a, a < h.length → (allocV.allocM h m).1[a]? = h[a]?) ∧
+    Closed (allocV.allocM h m).1 (Fresh n (allocV.allocM h m).1.length) ∧
+    (∀ k b, (k, HV.ref b) ∈ (allocV.allocM h m).2 → Fresh n (allocV.allocM h m).1.length b)
+  | .nil, n, h, _, hc => by simp [allocV.allocM, hc]
+  | .cons k v rest, n, h, hn, hc => by
+    obtain ⟨l1, s1, c1, f1⟩ := allocV_spec v n h hn hc
+    obtain ⟨l2, s2, c2, f2⟩ := allocM_spec rest n (allocV h v).1 (Nat.le_trans hn l1) c1
+    simp only [allocV.allocM]
+    refine ⟨Nat.le_trans l1 l2, fun a ha => by rw [s2 a (Nat.lt_of_lt_of_le ha l1), s1 a ha], c2, ?_⟩
+    intro k' b hb
+    rcases List.mem_cons.mp hb with hb | hb
+    · simp only [Prod.mk.injEq] at hb
+      exact (f1 b hb.2.symm).mono l2
+    · exact f2 k' b hb
+end
+
 /-! ### reading a closed region back gives the same value when its objects are untouched -/
 
 omit [DecidableEq κ] in
